@@ -3,6 +3,7 @@ package main
 // Specification expression language: parser (Pratt) and typed evaluator to SMT terms.
 
 import (
+	"os"
 	"fmt"
 	"go/ast"
 	"go/constant"
@@ -932,6 +933,9 @@ func (c *evalCtx) call(x *SExpr) (*Val, error) {
 				}
 			}
 		}
+		if t := e.typeByKey(want); t != nil {
+			return bo(fmt.Sprintf("(= (i-tag %s) %d)", args[0].T, e.tagOf(t)))
+		}
 		return nil, fmt.Errorf("unbound:type %s", want)
 	case "content":
 		a := args[0]
@@ -959,7 +963,7 @@ func (c *evalCtx) call(x *SExpr) (*Val, error) {
 		return &Val{T: sSel(args[0].T, args[1].T), S: es}, nil
 	case "store":
 		return &Val{T: sStore(args[0].T, args[1].T, args[2].T), S: args[0].S}, nil
-	case "result_of", "called":
+	case "result_of", "called", "first_result_of":
 		// result_of("callee key"): the value returned by the call(s) of that callee inside the function
 		// under verification; called("callee key"): whether such a call was reached
 		key := x.Args[0].Name
@@ -976,6 +980,20 @@ func (c *evalCtx) call(x *SExpr) (*Val, error) {
 				pcs = append(pcs, cr.pc)
 			}
 			return bo(sOr(pcs...))
+		}
+		for _, cr := range crs {
+			if cr.val == nil {
+				return nil, fmt.Errorf("result_of: %s returns nothing", key)
+			}
+		}
+		if name != "first_result_of" {
+			// result_of: the value returned by the last call reached on the path (the chain below gives
+			// priority to the entries that come first); first_result_of: by the first one
+			rev := make([]callRes, len(crs))
+			for i := range crs {
+				rev[len(crs)-1-i] = crs[i]
+			}
+			crs = rev
 		}
 		v := crs[len(crs)-1].val
 		if v.Tup != nil {
@@ -997,6 +1015,12 @@ func (c *evalCtx) call(x *SExpr) (*Val, error) {
 			t = sIte(crs[k].pc, crs[k].val.T, t)
 		}
 		return &Val{T: t, S: v.S, GoT: v.GoT}, nil
+	case "closure":
+		// closure(f, "name suffix"): the function value f is, statically, the closure with that name
+		if args[0].Clo != nil && args[0].Clo.Fn != nil && strings.HasSuffix(fnKey(e.g, args[0].Clo.Fn), x.Args[1].Name) {
+			return bo("true")
+		}
+		return bo("false")
 	case "seen":
 		// seen(k): key k has been visited by the map range loop whose invariant this is
 		var comp string
@@ -1219,6 +1243,14 @@ func (fr *Frame) lookupLocal(name string, hdr *ssa.BasicBlock, override map[ssa.
 				continue
 			}
 		}
+		// outside loop-header context: a definition later in the current block has not happened yet
+		if hdr == nil && (at == nil || d.block == at) {
+			if _, isConst := d.val.(*ssa.Const); !isConst {
+				if _, done := fr.vals[d.val]; !done {
+					continue
+				}
+			}
+		}
 		dd := domDepth(d.block)
 		if dd > bestDepth || (dd == bestDepth && best != nil && d.ord > best.ord) {
 			best, bestDepth = d, dd
@@ -1226,6 +1258,9 @@ func (fr *Frame) lookupLocal(name string, hdr *ssa.BasicBlock, override map[ssa.
 	}
 	if best == nil {
 		return nil
+	}
+	if os.Getenv("GOVC_DEBUG_NAMES") != "" {
+		fmt.Fprintf(os.Stderr, "lookup %s at block %v hdr=%v -> %s (block %d)\n", name, at, hdr != nil, best.val.Name(), best.block.Index)
 	}
 	var v *Val
 	if override != nil {
